@@ -167,7 +167,7 @@ ImportOf(s) == [time |-> s.time, active |-> {i \in States : IsActive(s.time[i])}
 Restart ==
   /\ steps < MaxSteps /\ machTick < 1 /\ ~UseLists
   /\ LET im == ImportOf(ExportOf)
-         x == [err |-> "", tb |-> time, ta |-> im.time,
+         x == [err |-> "", tb |-> time, ta |-> im.time, tapos |-> im.time,
                ab |-> SelectSeq([i \in States |-> i], LAMBDA i : IsActive(time[i])),
                aa |-> SelectSeq([i \in States |-> i], LAMBDA i : i \in im.active),
                mtb |-> machTick, mta |-> im.machTick]
